@@ -80,9 +80,9 @@ Lemma fetch_unaffected f (C : coll) k (np : option spay) :
   (forall p, cget univ C k = Some p -> matches f (k, p) false = false) ->
   (forall p, np = Some p -> matches f (k, p) false = false) ->
   memb k univ = true ->
-  fetch univ f (fset C k np) = fetch univ f C.
+  fetch_raw univ f (fset C k np) = fetch_raw univ f C.
 Proof.
-  intros Hold Hnew Hu. unfold fetch.
+  intros Hold Hnew Hu. unfold fetch_raw.
   assert (Hc : cget univ C k = C k) by (unfold cget; rewrite Hu; reflexivity).
   destruct (f_sel f) eqn:Es; cbn [prelist].
   - (* SAll *)
@@ -123,6 +123,57 @@ Proof.
            first [rewrite (Hnew p eq_refl)|rewrite (Hold p) by (rewrite Hc; reflexivity)]|]
       end; reflexivity.
 Qed.
+
+Lemma fetch_unaffected' f (C : coll) k (np : option spay) :
+  (forall p, cget univ C k = Some p -> matches f (k, p) false = false) ->
+  (forall p, np = Some p -> matches f (k, p) false = false) ->
+  memb k univ = true ->
+  fetch univ f (fset C k np) = fetch univ f C.
+Proof. intros H1 H2 H3. unfold fetch. rewrite (fetch_unaffected f C k np H1 H2 H3). reflexivity. Qed.
+
+(* a suppressing (PartialFetch) filter is well-formed when what it selects on is part of what it projects:
+   no label / generic predicate, and an index selector only together with the namespace projection *)
+Definition supp_wf (f : filt) : Prop :=
+  match f_suppress f with
+  | None => True
+  | Some n => f_label f = None /\ f_generic f = None /\ match f_sel f with SIndex _ => n = 0 | _ => True end
+  end.
+
+Lemma map_filter_flat_map_ext {A B C0} (g : B -> C0) (p : B -> bool) (h h' : A -> list B) l :
+  (forall x, In x l -> map g (filter p (h' x)) = map g (filter p (h x))) ->
+  map g (filter p (flat_map h' l)) = map g (filter p (flat_map h l)).
+Proof.
+  induction l as [|x l IH]; intros H; cbn; [reflexivity|].
+  rewrite !filter_app, !map_app. rewrite (H x (or_introl eq_refl)). rewrite IH; [reflexivity|].
+  intros y Hy. apply H. right. exact Hy.
+Qed.
+
+Lemma projn0_ns o p : projn 0 o = projn 0 p -> s_ns o = s_ns p.
+Proof. cbn. intros H. inversion H. reflexivity. Qed.
+
+(* an update that a well-formed PartialFetch dependency suppresses does not change its (projected) result *)
+Lemma fetch_suppressed f (C : coll) k o p n :
+  f_suppress f = Some n -> supp_wf f -> C k = Some o -> projn n o = projn n p ->
+  fetch univ f (fset C k (Some p)) = fetch univ f C.
+Proof.
+  intros Hs Hwf Ho Hp. unfold supp_wf in Hwf. rewrite Hs in Hwf. destruct Hwf as (Hl&Hg&Hsel).
+  unfold fetch. rewrite Hs. unfold fetch_raw.
+  assert (Hm : forall q, matches f (k, q) true = true).
+  { intros q. unfold matches. rewrite Hl, Hg. reflexivity. }
+  destruct (f_sel f) eqn:Es; cbn [prelist].
+  - unfold elements. apply map_filter_flat_map_ext. intros x _.
+    destruct (N.eq_dec x k) as [->|Hne]; [|rewrite fset_neq by exact Hne; reflexivity].
+    rewrite fset_eq, Ho. cbn. rewrite !Hm. cbn. rewrite Hp. reflexivity.
+  - apply map_filter_flat_map_ext. intros x _. unfold cget. destruct (memb x univ); [|reflexivity].
+    destruct (N.eq_dec x k) as [->|Hne]; [|rewrite fset_neq by exact Hne; reflexivity].
+    rewrite fset_eq, Ho. cbn. rewrite !Hm. cbn. rewrite Hp. reflexivity.
+  - assert (Hns : s_ns o = s_ns p).
+    { pose proof Hp as Hp0. rewrite Hsel in Hp0. apply projn0_ns. exact Hp0. }
+    rewrite !filter_filter. unfold elements. apply map_filter_flat_map_ext. intros x _.
+    destruct (N.eq_dec x k) as [->|Hne]; [|rewrite fset_neq by exact Hne; reflexivity].
+    rewrite fset_eq, Ho. cbn. rewrite !Hm, Hns.
+    destruct (N.eqb (s_ns p) n0); cbn; [rewrite Hp|]; reflexivity.
+Qed.
 End Fetch.
 
 (* ---------------------------------------------------------------- reverse index invariant *)
@@ -159,7 +210,7 @@ Qed.
 Lemma object_changed_pre ds src e : object_changed ds src e false = true -> object_changed ds src e true = true.
 Proof.
   unfold object_changed. rewrite !existsb_exists. intros [d [Hd H]]. exists d. split; [exact Hd|].
-  apply andb_true_iff in H. destruct H as [H1 H2]. rewrite H1. cbn.
+  apply andb_true_iff in H. destruct H as [H1 H2]. rewrite H1. cbn [andb].
   rewrite existsb_exists in *. destruct H2 as [o [Ho Hm]]. exists o. split; [exact Ho|].
   apply matches_pre_mono. exact Hm.
 Qed.
@@ -215,7 +266,8 @@ Proof.
   - (* reverse index *)
     rewrite <- Ets.
     unfold object_changed in Hch. apply existsb_exists in Hch. destruct Hch as [d [Hd Hm]].
-    apply andb_true_iff in Hm. destruct Hm as [Hid Hm]. apply N.eqb_eq in Hid.
+    apply andb_true_iff in Hm. destruct Hm as [Hid Hm]. apply andb_true_iff in Hid. destruct Hid as [Hid Hsup].
+    apply N.eqb_eq in Hid.
     apply existsb_exists in Hm. destruct Hm as [o [Ho Hm]].
     specialize (Hrev a ds d Hds Hd).
     assert (Hno : extr_mem (src, NoIndexT) (d_extr D) = false).
@@ -264,6 +316,6 @@ Proof.
     rewrite Hds.
     assert (Hc : object_changed ds src e true = true).
     { apply object_changed_pre. unfold object_changed. apply existsb_exists. exists d. split; [exact Hd|].
-      rewrite Hid, N.eqb_refl. cbn. apply existsb_exists. exists o. split; [exact Ho|exact Hm]. }
+      rewrite Hid, N.eqb_refl, Hsup. cbn [andb]. apply existsb_exists. exists o. split; [exact Ho|exact Hm]. }
     rewrite Hc. apply in_app_iff. right. left. reflexivity.
 Qed.
